@@ -106,6 +106,33 @@ def _run(args):
         return ("internal-error", f"{type(e).__name__}: {e}")
 
 
+def _run_many(args):
+    """All the given properties on one overlay, sharing one parsed model (the checkers only read it)."""
+    props, overlay = args
+    from .model import AnalysisError, SrcModel
+    from .report import Ctx
+
+    try:
+        model = SrcModel(overlay=overlay)
+    except (AnalysisError, SyntaxError) as e:
+        return {p: ("analysis-error", str(e)) for p in props}
+    out = {}
+    for prop in props:
+        mod = importlib.import_module(f"sverif.rules.{prop.lower()}")
+        try:
+            ctx = Ctx(prop, "quick", model=model)
+            mod.check(ctx)
+            if ctx.declined and not ctx.findings:
+                out[prop] = ("analysis-error", "; ".join(f"{why} [{name}]" for name, why in ctx.declined))
+            else:
+                out[prop] = ("ok", [(f.rule, f.key, f.message, f.file, f.line) for f in ctx.findings])
+        except AnalysisError as e:
+            out[prop] = ("analysis-error", str(e))
+        except Exception as e:  # pragma: no cover
+            out[prop] = ("internal-error", f"{type(e).__name__}: {e}")
+    return out
+
+
 def evaluate(prop=None, all_props=False, jobs=16, verbose=True):
     """Run the checkers over every seeded change.  Returns (rows, failures): a row per change with the new findings
     (relative to the unmodified tree) per property; a failure is a change whose meta says ``"expect": "detected"``
@@ -126,9 +153,21 @@ def evaluate(prop=None, all_props=False, jobs=16, verbose=True):
             index.append((e["_id"], p))
             base_props.add(p)
     base_props = sorted(base_props)
-    with ProcessPoolExecutor(max_workers=jobs) as ex:
-        bres = list(ex.map(_run, [(p, None) for p in base_props]))
-        res = list(ex.map(_run, work))
+    if all_props:
+        # one model per seeded change, shared by the twenty checkers
+        groups = {}
+        for (sid, p), (p2, ov) in zip(index, work):
+            groups.setdefault(sid, ([], ov))[0].append(p)
+        with ProcessPoolExecutor(max_workers=jobs) as ex:
+            bmany = ex.submit(_run_many, (base_props, None))
+            gres = list(ex.map(_run_many, [(ps, ov) for sid, (ps, ov) in groups.items()]))
+            bres = [bmany.result()[p] for p in base_props]
+        gmap = {sid: r for sid, r in zip(groups, gres)}
+        res = [gmap[sid][p] for (sid, p) in index]
+    else:
+        with ProcessPoolExecutor(max_workers=jobs) as ex:
+            bres = list(ex.map(_run, [(p, None) for p in base_props]))
+            res = list(ex.map(_run, work))
     base = {p: ({k for (_, k, *_r) in r[1]} if r[0] == "ok" else set()) for p, r in zip(base_props, bres)}
     by = {}
     for (sid, p), r in zip(index, res):
@@ -178,9 +217,9 @@ def print_rows(rows):
             print(f"         note: {r['note']}")
 
 
-def run_seeded(prop=None, all_props=False):
+def run_seeded(prop=None, all_props=False, jobs=16):
     t0 = time.time()
-    rows, failures = evaluate(prop, all_props=all_props)
+    rows, failures = evaluate(prop, all_props=all_props, jobs=jobs)
     print_rows(rows)
     n = len(rows)
     det = sum(1 for r in rows if r.get("detected_by_own"))
